@@ -491,7 +491,8 @@ SamePoint(x, y) == IF x.k = "dt" THEN SameDT(x, y) ELSE (y.k = x.k /\ y.cls = x.
 DurFields(p) == <<p.r3, p.years, p.months, p.weeks, p.remaining_days, p.hours, p.minutes, p.remaining_seconds,
                   p.microseconds, p.invert>>
 J_copy(e) ==
-  LET x == e.pre[1]  p == e.post
+  LET x == IF e.a.how \in {"deepcopy-pair", "pickle-pair"} THEN e.pre[2] ELSE e.pre[1]      \* pairs: the second value is judged
+      p == e.post
       lab == <<x.k, e.a.how>> \o (IF x.k = "dt" THEN <<ClassOf(DT(x.z, x.w, x.f)), B(x.f = 1)>>
                                   ELSE IF x.k = "dur" THEN <<B(x.years # 0 \/ x.months # 0), B(x.weeks # 0)>>
                                   ELSE IF x.k = "iv" THEN <<B(x.abs), B(x.invert = 1), x.a.k>> ELSE <<>>)
